@@ -235,16 +235,40 @@ func coqCase(cs caseSpec, o obs) string {
 		for _, b := range call.Beh {
 			beh = append(beh, fmt.Sprintf("(%s, %s)", cf.Z(b.P), coqBeh(b)))
 		}
+		served, read := map[int64]int{}, map[int64]int{}
+		var errParts []int64
+		for _, x := range o.Log {
+			if x.Call != ci {
+				continue
+			}
+			switch x.K {
+			case "fetcherr":
+				if served[x.P] == 0 {
+					errParts = append(errParts, x.P)
+				}
+				served[x.P]++
+			case "err":
+				read[x.P]++
+			}
+		}
+		var errs []string
+		for _, p := range errParts {
+			r := read[p]
+			if r > served[p] {
+				r = served[p]
+			}
+			errs = append(errs, fmt.Sprintf("(%s, (%s, %s))", cf.Z(p), cf.Nat(r), cf.Nat(served[p]-r)))
+		}
 		for _, p := range started {
 			cons = append(cons, fmt.Sprintf("(%s, %s)", cf.Z(p), cf.Nat(consumed[p])))
 			clm = append(clm, fmt.Sprintf("(%s, %s)", cf.Z(p), cf.List(claims[p])))
 		}
 		calls = append(calls, fmt.Sprintf("{| cc_trig := %s; cc_arg := %s; cc_handler := {| hd_setup_ok := %s; hd_cleanup_ok := %s; hd_beh := %s; hd_default := {| h_quota := None; h_mark := 0%%nat |} |}; "+
-			"cc_coords := %s; cc_joins := %s; cc_syncs := %s; cc_fetches := %s; cc_attempts := %s; cc_hbs := %s; cc_commits := %s; cc_started := %s; cc_consumed := %s; cc_produce := %s; "+
+			"cc_coords := %s; cc_joins := %s; cc_syncs := %s; cc_fetches := %s; cc_attempts := %s; cc_hbs := %s; cc_commits := %s; cc_started := %s; cc_consumed := %s; cc_produce := %s; cc_errs := %s; "+
 			"cc_fired := %s; cc_main := %s; cc_claims := %s; cc_hbids := %s |}",
 			coqTrig(call.Trigger), cf.Nat(call.TrigArg), cf.Bool(call.SetupOK), cf.Bool(call.CleanupOK), cf.List(beh),
 			coqBools(co.Coords), cf.List(joins), cf.List(syncs), coqBools(co.Fetches), coqAttempts(&call), cf.List(hbs), coqBools(co.Commits),
-			cf.ZList(started), cf.List(cons), cf.ZList(call.Produce), cf.Bool(co.Fired), cf.List(main), cf.List(clm), cf.List(hbids)))
+			cf.ZList(started), cf.List(cons), cf.ZList(call.Produce), cf.List(errs), cf.Bool(co.Fired), cf.List(main), cf.List(clm), cf.List(hbids)))
 	}
 	var tail []string
 	for _, x := range o.Log {
@@ -319,6 +343,9 @@ func main() {
 		if i%4 == 3 {
 			cases = append(cases, genNoSkip(r))
 			kinds = append(kinds, "noskip")
+		} else if i%12 == 9 || i%12 == 1 {
+			cases = append(cases, genErrPath(r))
+			kinds = append(kinds, "errpath")
 		} else if i%12 == 5 {
 			cases = append(cases, genTransient(r))
 			kinds = append(kinds, "transient")
